@@ -94,7 +94,7 @@ fn main() {
                 let t = (c.families)(Tier::Thorough);
                 let cell = |v: &Vec<(&'static str, u64)>| v.iter().map(|(f, n)| format!("{} {}", f, n)).collect::<Vec<_>>().join(", ");
                 if c.id == "C19" {
-                    println!("| {} | the families of C01-C07, C09, C13-C17 ({} case indices) | a tenth of their thorough sizes ({} case indices) |", c.id, q.iter().map(|x| x.1).sum::<u64>(), t.iter().map(|x| x.1).sum::<u64>());
+                    println!("| {} | the families of C01-C07, C09-C17 ({} case indices) | a tenth of their thorough sizes ({} case indices) |", c.id, q.iter().map(|x| x.1).sum::<u64>(), t.iter().map(|x| x.1).sum::<u64>());
                 } else {
                     println!("| {} | {} | {} |", c.id, cell(&q), cell(&t));
                 }
